@@ -4,6 +4,7 @@
 //! out :  <m> <m*3 vertices ...> | <per-input single-call counts> <same: 1 if the batch output is
 //!        bit-identical to the concatenation of the single-triangle calls>
 use re::geom::{vertex, Tri};
+use re::math::color::{rgb, rgba, Color3f, Color4f};
 use re::math::{vec2, vec3, Lerp, Vec2, Vec3};
 use re::render::clip::{view_frustum, ClipVec, ClipVert};
 
@@ -43,6 +44,32 @@ impl Attr for (Vec2, f32) {
     }
     fn words(&self) -> Vec<f32> {
         vec![self.0.x(), self.0.y(), self.1]
+    }
+}
+
+impl Attr for Color3f {
+    fn from_words(w: &[f32]) -> Self {
+        rgb(w[0], w[1], w[2])
+    }
+    fn words(&self) -> Vec<f32> {
+        self.0.to_vec()
+    }
+}
+impl Attr for Color4f {
+    fn from_words(w: &[f32]) -> Self {
+        rgba(w[0], w[1], w[2], w[3])
+    }
+    fn words(&self) -> Vec<f32> {
+        self.0.to_vec()
+    }
+}
+
+/// attribute words for the kind code `k` of a case: 1 f32, 2 Vec2, 3 Vec3, 4 (Vec2, f32), 5 Color3f, 6 Color4f
+fn kind_words(k: usize) -> usize {
+    match k {
+        4 | 5 => 3,
+        6 => 4,
+        _ => k,
     }
 }
 
@@ -106,12 +133,14 @@ pub fn run(t: &[&str]) -> String {
             let k: usize = t[1].parse().unwrap();
             let n: usize = t[2].parse().unwrap();
             let w: Vec<f32> = t[3..].iter().map(|s| pf32(s)).collect();
-            assert_eq!(w.len(), n * 3 * (4 + if k == 4 { 3 } else { k }));
+            assert_eq!(w.len(), n * 3 * (4 + kind_words(k)));
             match k {
                 1 => run_clip::<f32>(k, n, &w),
                 2 => run_clip::<Vec2>(k, n, &w),
                 3 => run_clip::<Vec3>(k, n, &w),
                 4 => run_clip::<(Vec2, f32)>(3, n, &w[..]).to_string(),
+                5 => run_clip::<Color3f>(3, n, &w),
+                6 => run_clip::<Color4f>(4, n, &w),
                 _ => panic!("k"),
             }
         }
@@ -178,8 +207,8 @@ fn gen_vertex(rng: &mut Rng, mode: u64) -> [f32; 4] {
 pub fn gen(rng: &mut Rng, tier: Tier, out: &mut Vec<String>) {
     let n_cases = if tier == Tier::Quick { 4000 } else { 150_000 };
     for i in 0..n_cases {
-        let k = 1 + (i % 4);
-        let kw = if k == 4 { 3 } else { k };
+        let k = 1 + (i % 6);
+        let kw = kind_words(k);
         let n = match rng.below(10) {
             0..=5 => 1,
             6 | 7 => 2,
@@ -187,6 +216,9 @@ pub fn gen(rng: &mut Rng, tier: Tier, out: &mut Vec<String>) {
             _ => 4,
         };
         let mut line = format!("clip {k} {n}");
+        // clip space is homogeneous: a sixth of the cases are scaled as a whole by a power of ten
+        // (1e-7 .. 1e7), which must not change what is inside
+        let gscale = if i % 6 == 5 { 10f32.powi(rng.range(-7, 8) as i32) } else { 1.0 };
         for _ in 0..n {
             // triangle flavour: mostly mixed modes; sometimes all inside / all outside one plane
             let flavour = rng.below(12);
@@ -215,7 +247,7 @@ pub fn gen(rng: &mut Rng, tier: Tier, out: &mut Vec<String>) {
             for v in vs {
                 for c in v {
                     line += " ";
-                    line += &h32(c);
+                    line += &h32(c * gscale);
                 }
                 for _ in 0..kw {
                     let a = if rng.bool() { rng.range(-16, 17) as f32 / 4.0 } else { rng.f32_in(-10.0, 10.0) };
